@@ -1005,4 +1005,243 @@ theorem holdKeeper_wired_to_app_bankKeeper :
 
 end Facts
 
+/-! ## 8. Exchange messages: several releases, transfers and new holds in one transaction
+
+`acceptPaymentOps`, `closeSettlementOps` and `settleCommitmentsOps` (`PvModel/Lock.lean`) are the
+exchange's payment-accept, order-settlement (FillBids / FillAsks / MarketSettle) and
+commitment-settlement routes as the primitives they call, in the Go order; `applyAll` runs such a
+list atomically.  A message is a history (`applyAll_eq_run`), so everything proved for all
+histories holds for it; on top of that, **a message cannot use any hold it did not itself
+release**: every account's holds that the message does not release are still there afterwards
+and still covered by that account's balance — whoever pays, whatever else it has on hold. -/
+
+/-- An accepted message is the history of its primitives. -/
+theorem applyAll_eq_run : ∀ (ops : List Op) (s s' : State), applyAll s ops = .ok s' → run s ops = s'
+  | [], s, s', h => by
+    simp [applyAll] at h; simp [run, h]
+  | op :: rest, s, s', h => by
+    simp only [applyAll] at h
+    split at h
+    · cases h
+    · rename_i s₁ h₁
+      simp only [run, List.foldl_cons, step, h₁]
+      exact applyAll_eq_run rest s₁ s' h
+
+/-- A rejected message changes nothing (by construction of `stepMsg`). -/
+theorem message_rejected_changes_nothing (s : State) (ops : List Op) (e : Err)
+    (h : applyAll s ops = .error e) : stepMsg s ops = s := by
+  simp [stepMsg, h]
+
+/-- Any message of well-formed primitives, accepted or not, keeps `hold ≤ balance`. -/
+theorem message_holdLeBal (ops : List Op) (s : State) (hwf : ∀ op ∈ ops, WF op) (h : HoldLeBal s) :
+    HoldLeBal (stepMsg s ops) := by
+  unfold stepMsg
+  split
+  · rename_i s' hs
+    rw [← applyAll_eq_run ops s s' hs]
+    exact run_holdLeBal ops s hwf h
+  · exact h
+
+/-- the primitive is not a block-time change -/
+def NoSetTime : Op → Prop
+  | .setTime _ => False
+  | _ => True
+
+private theorem timeMono_of_noSetTime : ∀ (ops : List Op) (s : State), (∀ op ∈ ops, NoSetTime op) → TimeMono s ops
+  | [], _, _ => trivial
+  | op :: rest, s, h => by
+    refine ⟨?_, timeMono_of_noSetTime rest _ (fun o ho => h o (List.mem_cons_of_mem _ ho))⟩
+    have := h op (by simp)
+    cases op <;> simp_all [TimeOk, NoSetTime]
+
+/-- Any message of production-context primitives keeps what `HoldAccountBalancesInvariant`
+checks (`hold + unvested ≤ balance`, see §6). -/
+theorem message_good (ops : List Op) (s : State) (hops : ∀ op ∈ ops, PlainCtx op ∧ WF op ∧ NoSetTime op)
+    (g : Good s) : Good (stepMsg s ops) := by
+  unfold stepMsg
+  split
+  · rename_i s' hs
+    rw [← applyAll_eq_run ops s s' hs]
+    exact run_good ops s (fun o ho => ⟨(hops o ho).1, (hops o ho).2.1⟩)
+      (timeMono_of_noSetTime ops s (fun o ho => (hops o ho).2.2)) g
+  · exact g
+
+/-- A primitive that is not a release for `a` never lowers a hold of `a`. -/
+theorem apply_hold_mono {s s' : State} {op : Op} (a : Addr) (hnr : ∀ cs, op ≠ .releaseHold a cs)
+    (h : apply s op = .ok s') (d : Denom) : s.hold a d ≤ s'.hold a d := by
+  by_cases hop : isHoldOp op = false
+  · unfold State.hold; rw [bank_ops_keep_holds hop h]
+  · cases op with
+    | addHold c a' funds =>
+      simp only [apply, addHold] at h
+      split_ifs at h with hz
+      · simp at h; subst h; exact Int.le_refl _
+      · split at h
+        · cases h
+        · rename_i hv
+          simp at h; subst h
+          rw [(addHoldLoop_spec a' funds s).2.2.2.2.2 a d]
+          unfold validateNewHold at hv
+          split_ifs at hv with hn
+          have := amountOf_nonneg_of_pos funds (isAnyNegative_false (by simpa using hn)) d
+          split <;> omega
+    | releaseHold a' funds =>
+      have hne : a ≠ a' := fun e => hnr funds (by rw [e])
+      simp only [apply, releaseHold] at h
+      split_ifs at h with hz hn
+      · simp at h; subst h; exact Int.le_refl _
+      · rw [releaseLoop_other a' funds s s' h a d hne]
+    | _ => simp [isHoldOp] at hop
+
+/-- the message contains no release for `a` -/
+def NoReleaseFor (a : Addr) (ops : List Op) : Prop := ∀ op ∈ ops, ∀ cs, op ≠ .releaseHold a cs
+
+theorem applyAll_hold_mono (a : Addr) : ∀ (ops : List Op) (s s' : State), NoReleaseFor a ops →
+    applyAll s ops = .ok s' → ∀ d, s.hold a d ≤ s'.hold a d
+  | [], s, s', _, h, d => by simp [applyAll] at h; subst h; exact Int.le_refl _
+  | op :: rest, s, s', hnr, h, d => by
+    simp only [applyAll] at h
+    split at h
+    · cases h
+    · rename_i s₁ h₁
+      exact Int.le_trans (apply_hold_mono a (hnr op (by simp)) h₁ d)
+        (applyAll_hold_mono a rest s₁ s' (fun o ho => hnr o (List.mem_cons_of_mem _ ho)) h d)
+
+/-- **A message cannot spend holds it does not release.**  After an accepted message, every
+account for which the message contains no release still has at least the holds it had before,
+and its balance still covers them — in particular the *paying* side of an exchange transfer
+keeps all its other holds intact. -/
+theorem message_unreleased_holds_stay_covered (ops : List Op) (s s' : State) (a : Addr)
+    (hwf : ∀ op ∈ ops, WF op) (hinv : HoldLeBal s) (hnr : NoReleaseFor a ops)
+    (h : applyAll s ops = .ok s') (d : Denom) :
+    s.hold a d ≤ s'.hold a d ∧ s'.hold a d ≤ s'.bal a d := by
+  refine ⟨applyAll_hold_mono a ops s s' hnr h d, ?_⟩
+  have := run_holdLeBal ops s hwf hinv
+  rw [applyAll_eq_run ops s s' h] at this
+  exact this a d
+
+private theorem doTransferOp_ok (ins outs : List (Addr × Coins)) (rs : List (Option Addr)) :
+    (PlainCtx (doTransferOp ins outs rs) ∧ WF (doTransferOp ins outs rs) ∧ NoSetTime (doTransferOp ins outs rs)) ∧
+      ∀ a cs, doTransferOp ins outs rs ≠ .releaseHold a cs := by
+  unfold doTransferOp
+  split <;> simp [PlainCtx, WF, NoSetTime, Op.ctx, exchangeCtx]
+
+private theorem doTransfersOps_ok : ∀ (ts : List (List (Addr × Coins) × List (Addr × Coins))) (rs : List (Option Addr)),
+    ∀ op ∈ doTransfersOps ts rs, (PlainCtx op ∧ WF op ∧ NoSetTime op) ∧ ∀ a cs, op ≠ .releaseHold a cs
+  | [], _, op, h => by simp [doTransfersOps] at h
+  | (ins, outs) :: rest, rs, op, h => by
+    simp only [doTransfersOps, List.mem_cons] at h
+    rcases h with rfl | h
+    · exact doTransferOp_ok ins outs _
+    · exact doTransfersOps_ok rest _ op h
+
+/-- the lowering of `AcceptPayment` consists of production-context, well-formed primitives and
+releases holds of the payment's source only -/
+theorem acceptPaymentOps_ok (src tgt : Addr) (srcAmt tgtAmt : Coins) (rs : List (Option Addr)) :
+    (∀ op ∈ acceptPaymentOps src tgt srcAmt tgtAmt rs, PlainCtx op ∧ WF op ∧ NoSetTime op) ∧
+      ∀ a, a ≠ src → NoReleaseFor a (acceptPaymentOps src tgt srcAmt tgtAmt rs) := by
+  constructor
+  · intro op hop
+    simp only [acceptPaymentOps, List.mem_cons, List.mem_append] at hop
+    rcases hop with rfl | hop | hop
+    · simp [PlainCtx, WF, NoSetTime, Op.ctx]
+    · split_ifs at hop <;> simp at hop
+      subst hop; simp [PlainCtx, WF, NoSetTime, Op.ctx, exchangeCtx]
+    · split_ifs at hop <;> simp at hop <;> subst hop <;> simp [PlainCtx, WF, NoSetTime, Op.ctx, exchangeCtx]
+  · intro a ha op hop cs
+    simp only [acceptPaymentOps, List.mem_cons, List.mem_append] at hop
+    rcases hop with rfl | hop | hop
+    · intro e; injection e with e1 _; exact ha e1.symm
+    · split_ifs at hop <;> simp at hop
+      subst hop; simp
+    · split_ifs at hop <;> simp at hop <;> subst hop <;> simp
+
+/-- **Accepting a payment** (any source / target / amounts / restriction outcomes, from a state
+with `hold ≤ balance`): whether it is accepted or rejected, `hold ≤ balance` holds afterwards
+for every account; and when it is accepted, every account other than the payment's source —
+in particular the target, which pays the target amount — keeps every hold it had, covered by its
+balance.  (The payment's own hold on the source is the only one released.) -/
+theorem acceptPayment_safe (s : State) (src tgt : Addr) (srcAmt tgtAmt : Coins) (rs : List (Option Addr))
+    (hinv : HoldLeBal s) :
+    HoldLeBal (stepMsg s (acceptPaymentOps src tgt srcAmt tgtAmt rs)) ∧
+    ∀ s', applyAll s (acceptPaymentOps src tgt srcAmt tgtAmt rs) = .ok s' →
+      ∀ a d, a ≠ src → s.hold a d ≤ s'.hold a d ∧ s'.hold a d ≤ s'.bal a d := by
+  obtain ⟨hok, hnr⟩ := acceptPaymentOps_ok src tgt srcAmt tgtAmt rs
+  refine ⟨message_holdLeBal _ s (fun o ho => (hok o ho).2.1) hinv, ?_⟩
+  intro s' h a d ha
+  exact message_unreleased_holds_stay_covered _ s s' a (fun o ho => (hok o ho).2.1) hinv (hnr a ha) h d
+
+/-- … and it keeps what the hold invariant checks. -/
+theorem acceptPayment_good (s : State) (src tgt : Addr) (srcAmt tgtAmt : Coins) (rs : List (Option Addr))
+    (g : Good s) : Good (stepMsg s (acceptPaymentOps src tgt srcAmt tgtAmt rs)) :=
+  message_good _ s (acceptPaymentOps_ok src tgt srcAmt tgtAmt rs).1 g
+
+/-- non-vacuity, and the boundary: the target has 100banana of which 80 are on hold for something
+else; a payment asking it for 20banana is accepted, one asking for 21banana is rejected (and
+changes nothing), although the 10apple it receives are free. -/
+example :
+    let s : State := { ledger := [⟨"A", "apple", 100⟩, ⟨"B", "banana", 100⟩],
+                       holds := [⟨"A", "apple", 10⟩, ⟨"B", "banana", 80⟩] }
+    HoldLeBal s ∧
+    (∃ s', applyAll s (acceptPaymentOps "A" "B" [("apple", 10)] [("banana", 20)] []) = .ok s' ∧
+      s'.bal "B" "banana" = 80 ∧ s'.hold "B" "banana" = 80 ∧ s'.hold "A" "apple" = 0) ∧
+    stepMsg s (acceptPaymentOps "A" "B" [("apple", 10)] [("banana", 21)] []) = s := by
+  refine ⟨?_, ⟨_, rfl, by decide, by decide, by decide⟩, rfl⟩
+  intro a d
+  simp only [State.hold, State.bal, Ledger.bal]
+  split <;> split <;> omega
+
+/-- **Order settlement** (`closeSettlement`: FillBids / FillAsks / MarketSettle without fees) with
+arbitrary releases, transfers and restriction outcomes keeps `hold ≤ balance`, and an accepted
+settlement leaves every hold of an account whose order holds are not among the releases in place
+and covered. -/
+theorem closeSettlement_safe (s : State) (releases : List (Addr × Coins))
+    (transfers : List (List (Addr × Coins) × List (Addr × Coins))) (rs : List (Option Addr)) (hinv : HoldLeBal s) :
+    HoldLeBal (stepMsg s (closeSettlementOps releases transfers rs)) ∧
+    ∀ s', applyAll s (closeSettlementOps releases transfers rs) = .ok s' →
+      ∀ a d, (∀ p ∈ releases, p.1 ≠ a) → s.hold a d ≤ s'.hold a d ∧ s'.hold a d ≤ s'.bal a d := by
+  have hok : ∀ op ∈ closeSettlementOps releases transfers rs, WF op := by
+    intro op hop
+    simp only [closeSettlementOps, List.mem_append, List.mem_map] at hop
+    rcases hop with ⟨p, _, rfl⟩ | hop
+    · simp [WF, Op.ctx]
+    · exact (doTransfersOps_ok transfers rs op hop).1.2.1
+  refine ⟨message_holdLeBal _ s hok hinv, ?_⟩
+  intro s' h a d ha
+  refine message_unreleased_holds_stay_covered _ s s' a hok hinv ?_ h d
+  intro op hop cs
+  simp only [closeSettlementOps, List.mem_append, List.mem_map] at hop
+  rcases hop with ⟨p, hp, rfl⟩ | hop
+  · intro e; injection e with e1 _; exact ha p hp e1
+  · exact (doTransfersOps_ok transfers rs op hop).2 a cs
+
+/-- **Commitment settlement** (`SettleCommitments` without fees: release the inputs' commitments,
+one transfer, re-commit the outputs) keeps `hold ≤ balance` — the outputs are valid `sdk.Coins`
+(`AccountAmount.Validate`, distinct denoms) — and leaves the holds of every account that is not
+an input in place and covered. -/
+theorem settleCommitments_safe (s : State) (ins outs : List (Addr × Coins)) (rs : List (Option Addr))
+    (hinv : HoldLeBal s) (hout : ∀ p ∈ outs, (Coins.denoms p.2).Nodup) :
+    HoldLeBal (stepMsg s (settleCommitmentsOps ins outs rs)) ∧
+    ∀ s', applyAll s (settleCommitmentsOps ins outs rs) = .ok s' →
+      ∀ a d, (∀ p ∈ ins, p.1 ≠ a) → s.hold a d ≤ s'.hold a d ∧ s'.hold a d ≤ s'.bal a d := by
+  have hok : ∀ op ∈ settleCommitmentsOps ins outs rs, WF op := by
+    intro op hop
+    simp only [settleCommitmentsOps, List.mem_append, List.mem_map, List.mem_singleton] at hop
+    rcases hop with (⟨p, _, rfl⟩ | rfl) | ⟨p, hp, rfl⟩
+    · simp [WF, Op.ctx]
+    · exact (doTransferOp_ok ins outs rs).1.2.1
+    · exact ⟨rfl, hout p hp⟩
+  refine ⟨message_holdLeBal _ s hok hinv, ?_⟩
+  intro s' h a d ha
+  refine message_unreleased_holds_stay_covered _ s s' a hok hinv ?_ h d
+  intro op hop cs
+  simp only [settleCommitmentsOps, List.mem_append, List.mem_map, List.mem_singleton] at hop
+  rcases hop with (⟨p, hp, rfl⟩ | rfl) | ⟨p, _, rfl⟩
+  · intro e; injection e with e1 _; exact ha p hp e1
+  · exact (doTransferOp_ok ins outs rs).2 a cs
+  · simp
+
+example : ∀ p ∈ [(("B" : Addr), ([("apple", 5), ("stake", 3)] : Coins))], (Coins.denoms p.2).Nodup := by
+  intro p hp; simp at hp; subst hp; simp [Coins.denoms]
+
 end PvProofs.C03
